@@ -170,9 +170,13 @@ def get_date_from_timestamp(date_string, settings, negative=False):
         seconds = int(match.group(1))
         millis = int(match.group(2) or 0)
         micros = int(match.group(3) or 0)
+        # keep the zone attached: localizing the bare wall clock again would pick
+        # the wrong UTC offset for an instant in a repeated (DST overlap) hour
         date_obj = datetime.fromtimestamp(seconds, timezone).replace(
-            microsecond=millis * 1000 + micros, tzinfo=None
+            microsecond=millis * 1000 + micros
         )
+        if settings is None:
+            return date_obj.replace(tzinfo=None)
         date_obj = apply_timezone_from_settings(date_obj, settings)
         return date_obj
 
